@@ -18,6 +18,7 @@ STUBS = [
     "np.vdot, np.linalg.norm, np.real/imag/angle, np.isscalar, np.issubdtype(object, complexfloating) -> definitions on SymK",
     "thresh._soft_thresh/_hard_thresh (nb.vectorize) -> np.frompyfunc of the DUFunc's own py_func",
     "range inside sigpy.interp accepts integral floats (numba semantics); NUMBA_DISABLE_JIT=1 runs @nb.jit kernels as Python",
+    "sigpy.util.randn(dtype=object) -> float64 start vector (MaxEig on symbolic problems)",
     "reals for floats: float constants taken at their exact rational value; rounding outside the claim",
 ]
 
@@ -301,6 +302,22 @@ def install():
         pf = fn._dispatcher.py_func if hasattr(fn, "_dispatcher") else getattr(fn, "py_func", fn)
         _orig[name] = fn
         setattr(thresh, name, _mixed_ufunc(fn, np.frompyfunc(pf, 2, 1)))
+
+    from sigpy import util as _util
+    _randn = _util.randn
+    _orig["randn"] = _randn
+
+    def randn(shape, scale=1, dtype=np.float64, device=None, **kw):
+        # MaxEig(dtype=x.dtype) with symbolic (object) x: the random start vector is an ordinary float vector
+        if dtype == object:
+            dtype = np.float64
+        if device is None:
+            return _randn(shape, scale=scale, dtype=dtype, **kw)
+        return _randn(shape, scale=scale, dtype=dtype, device=device, **kw)
+    _util.randn = randn
+    import sigpy as _sp
+    if getattr(_sp, "randn", None) is _randn:
+        _sp.randn = randn
 
     _range = builtins.range
 
